@@ -14,6 +14,7 @@ ranges.  Every finished path is then compared with the decision table of the pro
 
 and every byte read must be covered by a bound on LEN established on the path (no panic, nothing read beyond L+6).
 """
+import os
 import bitsem
 from bitsem import (Interp, State, BV, Lin, Sym, UBool, Ref, Adt, Tup, Opaque, Undecided, Panic, bf_atom, bv_const, lin_parts, mklin, add, sub,
                     lin_range, bit_str)
@@ -273,6 +274,21 @@ class FrameInterp(Interp):
                 lhs.extend(self.as_bv(x, 8).bits)
                 rhs.extend(self.as_bv(y, 8).bits)
             return BPred(BV(lhs, False), BV(rhs, False), neg)
+        if c in ("<T as core::convert::TryInto<U>>::try_into", "<T as core::convert::TryFrom<U>>::try_from") or \
+                bitsem.re.fullmatch(r"core::array::<impl core::convert::TryFrom<&'?\w* ?\[T\]> for \[T; N\]>::try_from", c):
+            # a piece of the input as a byte array: Ok exactly when the piece has the array's length
+            args = [self.operand(st, a) for a in t["args"]]
+            src = args[0]
+            dty = self.place_ty(t["dest"])
+            arrs = [x for x in (dty.get("args") or []) if isinstance(x, dict) and x.get("k") == "array"]
+            if not (isinstance(src, Ref) and src.loc[0] == "slice" and src.loc[2] is not None and len(arrs) == 1 and str(arrs[0].get("len", "")).isdigit()):
+                raise Undecided("try_into of something that is not a bounded piece of the input into a byte array")
+            n = lin_parts(sub(src.loc[2], src.loc[1]))
+            if n is None or n[0] != 0:
+                raise Undecided("try_into of a piece of symbolic length")
+            if n[1] != int(arrs[0]["len"]):
+                return Adt("core::result::Result", 1, "Err", [Opaque("TryFromSliceError", ())])
+            return Adt("core::result::Result", 0, "Ok", [[self.read_byte(st, add(src.loc[1], k)) for k in range(n[1])]])
         if bitsem.re.fullmatch(r"core::num::<impl u(8|16|32|64|size)>::from_be_bytes", c):
             args = [self.operand(st, a) for a in t["args"]]
             arr = args[0]
@@ -557,6 +573,23 @@ def other_byte_facts(st):
 def crc_fact(st):
     """(truth, problems) of the checksum comparison on the path, or None"""
     for l, r, truth in st.bfacts:
+        # `(a ^ b) == 0` is `a == b`: a side that is zero against bitwise xors of two atoms is split back into the two operands
+        for x, y in ((l, r), (r, l)):
+            if all(b == 0 for b in y) and any(isinstance(b, tuple) for b in x) and \
+                    all(b == 0 or (isinstance(b, tuple) and len(b[0]) == 2 and b[1] == 0b0110) for b in x):
+                xs, ys = [], []
+                for b in x:
+                    if b == 0:
+                        xs.append(0)
+                        ys.append(0)
+                        continue
+                    a0, a1 = b[0]
+                    if a1[0] == "CRC":
+                        a0, a1 = a1, a0
+                    xs.append(((a0,), 0b10))
+                    ys.append(((a1,), 0b10))
+                l, r = xs, ys
+                break
         for x, y in ((l, r), (r, l)):
             if any(isinstance(b, tuple) and b[0][0][0] == "CRC" for b in x if isinstance(b, tuple)):
                 probs = []
@@ -627,7 +660,11 @@ def observe(it, fin, fr):
         except Panic as e:
             obs["!panic"] = obs.get("!panic", []) + ["%s() can panic on a frame new() builds: %s" % (nm, e)]
             continue
-        except (Undecided, AttributeError, TypeError, KeyError, IndexError):
+        except (Undecided, AttributeError, TypeError, KeyError, IndexError) as e:
+            if os.environ.get("VERIF_DEBUG_OBS"):
+                import traceback
+                print("observe", nm, repr(e), "line", getattr(it, "line", "?"))
+                traceback.print_exc()
             continue
         for _ in range(3):
             if isinstance(r, Ref) and r.loc[0] == "local":
@@ -900,8 +937,8 @@ def check_iter(prog):
         if len(scans) != 1:
             out["problems"].append("the scanner is called %d times in one next()" % len(scans))
             continue
-        if not gt:
-            out["problems"].append("the scanner is called although index >= data.len() is possible on that path")
+        # (a scan of the empty tail data[len..] is harmless: the scanner answers (0, None) there - S-end - so next() returns None and index
+        # stays; whether the function tests `index >= len` first or lets the scanner say so makes no difference)
         a = scans[0]
         if not (isinstance(a, tuple) and a[0] == "slice" and lin_parts(a[1]) == (1, 0) and a[2] is None):
             out["problems"].append("the scanner is given %s, expected data[index..]" % (a,))
@@ -909,6 +946,6 @@ def check_iter(prog):
             out["problems"].append("after the scan index is %s, expected index + consumed" % (idx,))
         if not (isinstance(ret, Opaque) and ret.tag == "frame"):
             out["problems"].append("after the scan next() returns %s, expected the scanner's frame unchanged" % (ret,))
-    if out["paths"] < 2:
-        out["problems"].append("fewer than two paths (scan / no scan)")
+    if out["paths"] < 1:
+        out["problems"].append("next() has no path")
     return out
